@@ -42,7 +42,12 @@ def sliceFrom (s : Bytes) (a : Nat) : Res Bytes :=
 
 /-! ## bcrypt's base64 -/
 
-def alphabet : Array UInt8 := "./ABCDEFGHIJKLMNOPQRSTUVWXYZabcdefghijklmnopqrstuvwxyz0123456789".toUTF8.data
+/-- "./ABCDEFGHIJKLMNOPQRSTUVWXYZabcdefghijklmnopqrstuvwxyz0123456789" -/
+def alphaAt (i : Nat) : UInt8 :=
+  if i == 0 then 46 else if i == 1 then 47
+  else if i < 28 then UInt8.ofNat (65 + (i - 2))
+  else if i < 54 then UInt8.ofNat (97 + (i - 28))
+  else UInt8.ofNat (48 + (i - 54))
 
 /-- `decodeMap[c]`: index in the alphabet, 0xff if absent -/
 def decMap (c : UInt8) : UInt8 :=
@@ -52,7 +57,7 @@ def decMap (c : UInt8) : UInt8 :=
   else if 48 ≤ c ∧ c ≤ 57 then c - 48 + 54
   else 0xff
 
-def encChar (v : Nat) : UInt8 := alphabet[v % 64]!
+def encChar (v : Nat) : UInt8 := alphaAt (v % 64)
 
 /-- unpadded base64 of `src` (= `base64Encode`: Encode, then strip the trailing '='); callers pass
     non-empty input (`base64Encode(nil)` would index dst[-1]) -/
@@ -108,7 +113,8 @@ def quantum : List UInt8 → Bytes → Option (Bytes × Bytes)
           | _ :: _ => none                                 -- trailing garbage
 
 def decodeLoop : Nat → Bytes → Option Bytes
-  | 0, _ => some []
+  | 0, [] => some []
+  | 0, _ :: _ => none          -- fuel exhausted (cannot happen: every quantum consumes input)
   | fuel+1, src =>
     match src with
     | [] => some []
